@@ -11,13 +11,22 @@ type zzFailReader struct {
 	data   []byte
 	pos    int
 	failAt int
+	ioErr  error
 }
 
 var zzIOErr = errors.New("disk on fire")
 
+// zzWrapEOF: a source failure whose error chain contains io.EOF.
+type zzWrapEOF struct{}
+
+func (zzWrapEOF) Error() string { return "read failed: EOF" }
+func (zzWrapEOF) Unwrap() error { return io.EOF }
+
+var zzIOErrs = []error{zzIOErr, io.ErrUnexpectedEOF, zzWrapEOF{}}
+
 func (r *zzFailReader) Read(p []byte) (int, error) {
 	if r.pos >= r.failAt {
-		return 0, zzIOErr
+		return 0, r.ioErr
 	}
 	n := copy(p, r.data[r.pos:r.failAt])
 	r.pos += n
@@ -29,7 +38,8 @@ func (r *zzFailReader) Read(p []byte) (int, error) {
 func C16XmlFormat() {
 	doc := []byte("<R><T><x>1</x></T>\n<T><x>2</x></T></R>")
 	failAt := zz.NondetChoice("failAt", len(doc)+1)
-	r, err := NewReader("in", &zzFailReader{data: doc, failAt: failAt}, "/R/T")
+	ioErr := zzIOErrs[zz.NondetChoice("ioErrKind", 3)]
+	r, err := NewReader("in", &zzFailReader{data: doc, failAt: failAt, ioErr: ioErr}, "/R/T")
 	zz.Assume(err == nil)
 	for i := 0; i < 4; i++ {
 		n, err := r.Read()
